@@ -54,6 +54,20 @@ def replay(pid, cx):
         print('replay of real-driver schedule %s: the real RealDriver / DevInputReader / DevInputWriter / per-device loop on OS pipes' % n)
         print(p.stdout.decode())
         return 1 if p.returncode == 1 else 0
+    if (cx.get('input') or '').startswith(('fresh-case ', 'layout-file ')):
+        import witness, tempfile
+        exe = witness.build()
+        if cx['input'].startswith('fresh-case '):
+            prop, body = 'C06', json.loads(cx['input'][len('fresh-case '):])
+        else:
+            _, sd, text = cx['input'].split(' ', 2)
+            prop, body = 'C14', dict(json=text, event_seed=int(sd))
+        with tempfile.NamedTemporaryFile('w', suffix='.json', delete=False) as f:
+            json.dump(dict(counterexample=body), f)
+        p = subprocess.run([exe, 'replay', prop, f.name], stdout=subprocess.PIPE, stderr=subprocess.STDOUT, timeout=120)
+        os.unlink(f.name)
+        print(p.stdout.decode())
+        return 1 if p.returncode == 1 else 0
     if (cx.get('input') or '').startswith('program '):
         import witness, tempfile
         exe = witness.build()
@@ -168,6 +182,66 @@ def run_tables_enum(tier, seed):
                bound='none: all 1,112,064 scalar values and all 5 rows')
     out['violations'] = len(d['failures'])
     out['violation_list'] = [dict(input=f['input'], what=f['what']) for f in d['failures'][:1]]
+    return out
+
+
+def _bounded_probe(name, cmd, timeout=3000):
+    """run a seeded, bounded harness command; returns (out-dict, parsed JSON or None)"""
+    import witness
+    out = dict(name=name, kind='bounded', counts_as_proof=False)
+    try:
+        exe = witness.build()
+    except Exception as e:
+        out['undecided'] = 'harness build failed: %s' % str(e)[-300:]
+        return out, None
+    t0 = time.time()
+    p = subprocess.run([exe] + cmd, stdout=subprocess.PIPE, stderr=subprocess.PIPE, timeout=timeout)
+    try:
+        d = json.loads(p.stdout.decode().strip().split('\n')[-1])
+    except Exception as e:
+        out['undecided'] = 'probe output unreadable: %s %s' % (e, p.stderr.decode()[-300:])
+        return out, None
+    out['wall_s'] = round(time.time() - t0, 2)
+    out['violations'] = len(d['failures'])
+    out['violation_list'] = [dict(input=f['input'], what=f['what']) for f in d['failures'][:1]]
+    return out, d
+
+
+def run_loader_fuzz_bounded(tier, seed):
+    """C14, bounded: the JSON front end (out of the verifier's reach) and the whole load path on generated inputs"""
+    n = 250000 if tier == 'quick' else 8000000
+    out, d = _bounded_probe('loader_fuzz_bounded', ['loaderfuzz', str(n), '20260926'])
+    if d is None:
+        return out
+    text = ('layout_parsing_formatting.rs works on serde_json::Value and is outside the verifier (trusted in the deductive part). Bounded stand-in: %d generated inputs '
+            '(fixed seed: the same inputs on every run) - random layouts with duplicates, undefined or misplaced aliases, over-long and space-padded rows, extreme numbers, '
+            'and structure-aware mutations of valid layouts (a random node of the JSON tree replaced, duplicated, removed, renamed or retyped; strings replaced by text of '
+            'mixed UTF-8 widths up to 80 characters) - go through the real parser + converter; %d are accepted and are then installed in the real mapper, driven with 30 '
+            'random key events and, if they have Special repeats, run through the real per-device loop with a plain driver; %d are rejected with a message; every 64th input '
+            '(%d) is also written to a scratch file and loaded by the real layout_loading::load_layout_from_file, which must agree with parse + convert in memory. '
+            'A panic anywhere is a failure. Never counted as proof')
+    out.update(exhaustive=False, evaluations=d['inputs'], distinct_nontrivial=d['accepted'],
+               sample='{"mappings":[{"from":["@x",{"row":"Q"}],"to":[{"letters":"a  b"}],"repeat":{"Special":{"keys":[["x"]],"delay_ms":-1,"interval_ms":1e300}}}]} (one node of a valid layout retyped)',
+               explanation=text % (d['inputs'], d['accepted'], d['rejected'], d.get('through_load_layout_from_file', 0)),
+               bound='%d inputs, at most 6 mappings each, fixed seed 20260926; 30 key events per accepted layout' % d['inputs'])
+    return out
+
+
+def run_fresh_bounded(tier, seed):
+    """C06, bounded: the relational clause (afterwards the mapper answers like a fresh one), which no single-run contract states"""
+    n = 400000 if tier == 'quick' else 20000000
+    out, d = _bounded_probe('fresh_bounded', ['fresh', str(n), '20260926'])
+    if d is None:
+        return out
+    text = ('"Afterwards the mapper answers like a fresh one" relates two runs; the contracts prove the single-run half (at rest nothing is considered pressed, nothing is held, '
+            'no mapping is in effect). Bounded stand-in for the other half: %d seeded cases (the same on every run) - a layout of up to 4 mappings with or without absorbing lists, '
+            'a history of up to 14 events brought to rest by releasing every held key or by release_all, a continuation of up to 14 events - the real mapper that went through the '
+            'history and a new real mapper are stepped through the continuation and every StepResult (events and repeat request) is compared: %d continuation steps. '
+            'Never counted as proof')
+    out.update(exhaustive=False, evaluations=d['cases'], distinct_nontrivial=d['continuation_steps'],
+               sample='layout [LEFTSHIFT,A]->[X] absorbing LEFTSHIFT; history P:LEFTSHIFT P:A R:A R:LEFTSHIFT; continuation P:LEFTSHIFT P:A - used and fresh mapper both answer [Pressed(X)]',
+               explanation=text % (d['cases'], d['continuation_steps']),
+               bound='%d cases, histories and continuations of at most 14 events over 8 keys, layouts of at most 4 mappings, fixed seed 20260926' % d['cases'])
     return out
 
 
